@@ -165,7 +165,7 @@ def run(M, rep, rid, own_ctx=None, only_classes=None, only_modules=None):
         cont = [(name, node) for name, node in cont if holds_fresh_container(M, cn, name)]
         if cont:
             try:
-                cpaths = explore(rcfg if layer else lcfg, f, cn, None, 6000)
+                cpaths = explore(rcfg if layer else lcfg, f, cn, None, 60000)
             except Budget:
                 raise AnalysisError("stateless-handle rule: %s has too many abstract paths" % f.qual)
             for name, node in cont:
@@ -189,7 +189,7 @@ def run(M, rep, rid, own_ctx=None, only_classes=None, only_modules=None):
         if not attrs:
             continue
         try:
-            paths = explore(rcfg if layer else lcfg, f, cn, None, 6000)
+            paths = explore(rcfg if layer else lcfg, f, cn, None, 60000)
         except Budget:
             raise AnalysisError("stateless-handle rule: %s has too many abstract paths" % f.qual)
         per_attr = {}
